@@ -173,6 +173,8 @@ class Prov:
             base = 'agg(%s)' % agg_name(r[1])
         elif r[0] == 'multi':
             base = 'multi(_%d)' % r[1]
+        elif r[0] == 'var':
+            base = r[1]
         elif r[0] == 'expr':
             base = 'expr(%s)' % r[1][0]
         else:
@@ -407,6 +409,12 @@ class Fn:
     def prov_place(self, place, depth=0):
         local = place[0]
         proj = [p for p in place[1:]]
+        # pattern-bound variables (`Some(state_file)`) are debug names of projected places
+        if len(proj) >= 1 and self.kind != 'closure':
+            for k in range(len(proj), 0, -1):
+                nm = self.names.get(json.dumps([local] + proj[:k]))
+                if nm:
+                    return Prov(('var', nm, local), proj[k:])
         base = self.prov_local(local, depth + 1)
         return Prov(base.root, list(base.path) + proj, base.via)
 
@@ -426,9 +434,21 @@ class Fn:
             if 1 <= local <= self.nargs:
                 return Prov(('arg', local, self.local_name(local)))
             if not ds:
-                return Prov(('local', local))
+                nm = self.local_name(local)
+                return Prov(('var', nm, local)) if nm else Prov(('local', local))
+            nm = self.local_name(local)
+            if nm:
+                return Prov(('var', nm, local))
             return Prov(('multi', local))
         kind, site = ds[0]
+        n = site.node
+        nm = self.local_name(local)
+        if nm:
+            p = self._prov_def(kind, site, depth)
+            return Prov(p.root, p.path, p.via + (('var', nm, local),))
+        return self._prov_def(kind, site, depth)
+
+    def _prov_def(self, kind, site, depth):
         n = site.node
         if kind == 'assign':
             rv = n[2]
@@ -451,6 +471,20 @@ class Fn:
                 p = self.prov_operand(site.args[0], depth + 1)
                 return Prov(p.root, p.path, p.via + (('call', c, site),))
             return Prov(('call', site))
+
+    def varnames(self, op_or_place):
+        """Names of the user variables the value passes through (innermost first), plus a named root."""
+        if op_or_place and op_or_place[0] in ('c', 'm'):
+            place = op_or_place[1]
+        elif op_or_place and op_or_place[0] in ('k', 'fn'):
+            return []
+        else:
+            place = op_or_place
+        p = self.prov_place(place)
+        out = [v[1] for v in p.via if v[0] == 'var']
+        if p.root[0] in ('var', 'arg', 'upvar') and p.root[1 if p.root[0] != 'arg' else 2]:
+            out.append(p.root[1] if p.root[0] != 'arg' else p.root[2])
+        return out
 
     def render_place(self, place):
         """Render with closure upvar names where available."""
@@ -1030,6 +1064,9 @@ def sym_place(fn, place, depth=0):
         if not ds:
             # maybe only partial definitions (tuple fields)
             return ('s', '_%d%s' % (local, ''.join(proj)))
+        nm = fn.local_name(local)
+        if nm:
+            return ('phi', '%s%s' % (nm, ''.join(proj)))
         return ('phi', '_%d%s' % (local, ''.join(proj)))
     kind, site = ds[0]
     n = site.node
